@@ -53,14 +53,20 @@ class Ctx:
         self.skipped = []        # infeasible branches (re-asked by the vacuity guard)
         self.notes = {}
         self.names = set()
+        self.inre = False        # some regex membership constraint is on the path
 
     # -- assumptions ---------------------------------------------------------------------------
+    def _simp(self, cond):
+        """simplify, except terms with regex membership: their regex ASTs must stay the registered ones (relang)"""
+        return cond if self._has_inre(cond) else z3.simplify(cond)
+
     def assume(self, cond):
-        cond = z3.simplify(cond)
+        cond = self._simp(cond)
         if z3.is_true(cond):
             return
         self.pc.append(cond)
         self.solver.add(cond)
+        self.inre = self.inre or self._has_inre(cond)
         self.decided[cond.get_id()] = (cond, True)
 
     def assume_late(self, cond):
@@ -73,6 +79,22 @@ class Ctx:
     # -- decisions -----------------------------------------------------------------------------
     def _feasible(self, cond):
         self.nqueries += 1
+        if self.inre or self._has_inre(cond):
+            # regex membership over large character classes: decided through relang's exact abstraction
+            from . import relang
+            fs = self.pc + [cond]
+            pairs, clauses, _ = relang.exact_abstraction(fs)
+            if pairs:
+                s = z3.Solver()
+                s.set("timeout", self.FEAS_TIMEOUT_MS)
+                for c in fs:
+                    s.add(z3.substitute(c, *pairs))
+                for c in clauses + relang.lemmas_for(fs):
+                    s.add(z3.substitute(c, *pairs))
+                r = s.check()
+                if r == z3.unknown:
+                    raise EngineUnsupported("solver unknown on branch feasibility: %s" % s.reason_unknown())
+                return r == z3.sat
         self.solver.push()
         self.solver.add(cond)
         r = self.solver.check()
@@ -81,8 +103,21 @@ class Ctx:
             raise EngineUnsupported("solver unknown on branch feasibility: %s" % self.solver.reason_unknown())
         return r == z3.sat
 
+    @staticmethod
+    def _has_inre(t):
+        todo = [t]
+        n = 0
+        while todo and n < 200:
+            x = todo.pop()
+            n += 1
+            if z3.is_app(x):
+                if x.decl().kind() == z3.Z3_OP_SEQ_IN_RE:
+                    return True
+                todo.extend(x.children())
+        return False
+
     def decide(self, cond):
-        cond = z3.simplify(cond)
+        cond = self._simp(cond)
         if z3.is_true(cond):
             return True
         if z3.is_false(cond):
@@ -109,9 +144,10 @@ class Ctx:
             else:
                 raise EngineUnsupported("infeasible path reached (contradictory arrangement?)")
         self.trace.append(v)
-        c = cond if v else z3.simplify(z3.Not(cond))
+        c = cond if v else self._simp(z3.Not(cond))
         self.pc.append(c)
         self.solver.add(c)
+        self.inre = self.inre or self._has_inre(c)
         self.decided[key] = (cond, v)
         self.decided[c.get_id()] = (c, True)
         return v
